@@ -73,8 +73,15 @@ def run(ctx):
     # ---------------------------------------------------------------- C02.2
     app = P.fn('rip_log::EventLog::append')
     ser = app.calls(r'^serde_json::ser::to_string$|^serde_json::ser::to_vec$|^serde_json::ser::to_writer$')
-    writes = app.calls(r'std::io::Write>::(write_all|write)$')
+    from .common import log_writer_calls
+    _, writes, on_ok = log_writer_calls(P)
     flush = app.calls(r'std::io::Write>::flush$')
+    one = len(on_ok) == 1 and not app.in_loop(on_ok[0].bb) and on_ok[0].name == 'write_all'
+    ctx.ob('C02.2', app, 'whole-frame-single-write', one,
+           '%d call(s) hand bytes to the log writer on the success path of one append (%s)%s' % (len(on_ok), ', '.join(w.name for w in on_ok), '' if one else
+           ': only whole newline-terminated frames may be added, so body and newline must reach the file as ONE write_all; a streaming serialiser / several writes / a partial `write` flush the BufWriter mid-frame'),
+           line=on_ok[0].line if on_ok else app.line)
+    writes = [w for w in writes if w.bb not in {x.bb for x in ser}]
     if not ser or not writes:
         raise CheckError('C02.2: EventLog::append has no serialisation / write call (anchor missing)')
     for w in writes:
